@@ -260,6 +260,7 @@ class Distribution(Density, ABC):
         # EVALUATE CONDITIONAL DISTRIBUTION
         new_dist = self._make_copy() #New cuqi distribution conditioned on the kwargs
         processed_kwargs = set() # Keep track of processed (unique) elements in kwargs
+        assigned_vars = set() # Keep track of the mutable variables that are given a new value
 
         # Check if kwargs contain any mutable variables that are not conditioning variables
         # If so we raise an error since these are not allowed to be specified.
@@ -274,6 +275,7 @@ class Distribution(Density, ABC):
             if var_key in kwargs:
                 setattr(new_dist, var_key, kwargs.get(var_key))
                 processed_kwargs.add(var_key)
+                assigned_vars.add(var_key)
 
             # If variable is callable we check if any keyword arguments
             # can be used as arguments to the callable method.
@@ -294,14 +296,25 @@ class Distribution(Density, ABC):
                 if len(var_args)==len(accepted_keywords):  #All keywords found
                     # Define variable as the output of callable function
                     setattr(new_dist, var_key, var_val(**var_args))
+                    assigned_vars.add(var_key)
 
                 elif len(var_args)>0:                      #Some keywords found
                     # Define new partial function with partially defined args
                     func = partial(var_val, **var_args)
                     setattr(new_dist, var_key, func)
+                    assigned_vars.add(var_key)
                 
                 # Store processed keywords
                 processed_kwargs.update(var_args.keys())
+
+        # If the dimension was only inferred and the new values change it, the remaining mutable
+        # variables are assigned again, so that what they derive for a given dimension is rebuilt
+        old_dim = self._infer_dim_of_mutable_variables()
+        if assigned_vars and self._geometry.par_dim is None and old_dim is not None \
+           and new_dist._infer_dim_of_mutable_variables() != old_dim:
+            for var_key in mutable_vars:
+                if var_key not in assigned_vars and not callable(getattr(self, var_key)):
+                    setattr(new_dist, var_key, getattr(self, var_key))
 
         # Check if _main_parameter is specified in kwargs
         # (This is added by the _parse_args_add_to_kwargs method)
